@@ -302,6 +302,21 @@ def _stmt_of(ctx, modname, node):
     return n
 
 
+def rule_r5(ctx, sf) -> RuleResult:
+    """A title that occurs again in the dump (or is re-added by a post-processing step) ends up
+    with *all* columns of its latest copy: text, model and redirect target (shared with C10.R2)."""
+    r = c10.rule_r2(ctx, sf)
+    rr = RuleResult("C12.R5", "a re-added title is replaced in every column, unconditionally (shared with C10.R2)", min_instances=4)
+    for f in r.findings:
+        rr.bad(Finding("C12.R5", f.file, f.function, f.construct,
+                       f.message + "; a page ingested twice keeps a stale model/redirect target/text", f.line))
+    rr.cases = set(r.cases)
+    rr.obligations = r.obligations
+    rr.discharged = r.discharged
+    rr.samples = list(r.samples)
+    return rr
+
+
 def run(ctx) -> list:
     sf = SqlFacts(ctx.index)
-    return [rule_r1(ctx), rule_r2(ctx), rule_r3(ctx, sf), rule_r4(ctx)]
+    return [rule_r1(ctx), rule_r2(ctx), rule_r3(ctx, sf), rule_r4(ctx), rule_r5(ctx, sf)]
